@@ -9,6 +9,8 @@ import z3
 from .values import Infeasible, Unsupported
 
 FEAS_RLIMIT = 40000
+FEAS_RLIMIT_STR = 400000
+FEAS_MODE = ['tiny']     # 'strings': worlds without z3 sequences (generator harness) get a larger budget
 PROOF_STEP_S = float(os.environ.get('PYVC_PROOF_STEP_S', '3.0'))
 _FEAS_CACHE = {}
 PROF = {}
@@ -113,8 +115,10 @@ class Path:
         s = z3.Solver()
         if timeout_ms <= 1000:
             # feasibility query: deterministic resource limit (a timer is not honoured reliably by the
-            # sequence solver and larger budgets ran into a z3 vector overflow after ~25 s, measured)
-            s.set('rlimit', FEAS_RLIMIT)
+            # sequence solver and larger budgets ran into a z3 vector overflow after ~25 s, measured).
+            # Queries without sequence operations in the decided condition get a larger budget.
+            s.set('rlimit', FEAS_RLIMIT if FEAS_MODE[0] == 'tiny' else
+                  FEAS_RLIMIT_STR + 2000 * len(self._solver.assertions()))
         else:
             s.set('timeout', int(timeout_ms))
         for f in self._solver.assertions():
@@ -279,6 +283,10 @@ class Path:
             d = True
             self.decisions.append(True)
             self.pending.append(self.decisions[:-1] + [False])
+            if os.environ.get('PYVC_FORKS'):
+                import traceback
+                fr = [f'{f.name}:{f.lineno}' for f in traceback.extract_stack()[-8:-1]]
+                print(f'FORK[{rt},{rf}] {str(cond)[:300]!r} at {" < ".join(reversed(fr))}')
         self.pos += 1
         self.pc.append(cond if d else z3.Not(cond))
         self.conds.append(cond if d else z3.Not(cond))
